@@ -356,6 +356,8 @@ func validatorChecks(c *caseCtx, rng *rand.Rand, cr *created, ids []peer.ID, pub
 	env := &corruptEnv{rng: rng, cr: cr, other: other, ref: ref, local: local, members: ids, outsider: outsider,
 		total: total, proofLen: len(cr.fixed[0].MerkleProof.Siblings), publisher: publisher}
 	if validatorSuite(c, env, sch, "created") {
+		// the receiver's state machine and the processor's routing, on units its validator accepts
+		receiverChecks(c, env, sch)
 		return
 	}
 	// The validator refuses what the publisher creates (reported above). So that the rest of
